@@ -101,12 +101,19 @@ Section Inside.
     let d := det4 o (ta t) (tb t) (tc t) in
     same_side d (det4 p (ta t) (tb t) (tc t)) && same_side d (det4 o p (tb t) (tc t))
     && same_side d (det4 o (ta t) p (tc t)) && same_side d (det4 o (ta t) (tb t) p).
-  (* p on one of the four face planes of a non-degenerate tetrahedron: the apex must be changed *)
+  (* p lies in the CLOSED tetrahedron and on one of its three faces through the apex: the
+     strict indicator is then ambiguous between neighbouring tetrahedra and the apex is re-drawn.
+     (On the base face only, p is on the surface itself, which the margin excludes; on a face
+     PLANE but outside the closed tetrahedron, p is simply outside.) *)
+  Definition weak_same (d x : T) : bool :=
+    (oltb O (o0 O) d && oleb O (o0 O) x) || (oltb O d (o0 O) && oleb O x (o0 O)).
   Definition on_tet_plane (o p : V3) (t : tri) : bool :=
     let z x := oeqb O x (o0 O) in
-    negb (z (det4 o (ta t) (tb t) (tc t))) &&
-    (z (det4 p (ta t) (tb t) (tc t)) || z (det4 o p (tb t) (tc t))
-     || z (det4 o (ta t) p (tc t)) || z (det4 o (ta t) (tb t) p)).
+    let d := det4 o (ta t) (tb t) (tc t) in
+    let s0 := det4 p (ta t) (tb t) (tc t) in let s1 := det4 o p (tb t) (tc t) in
+    let s2 := det4 o (ta t) p (tc t) in let s3 := det4 o (ta t) (tb t) p in
+    negb (z d) && weak_same d s0 && weak_same d s1 && weak_same d s2 && weak_same d s3
+    && (z s1 || z s2 || z s3).
   Definition cover (o p : V3) (TT : list tri) : Z :=
     zsum (map (fun t => if in_tet o p t then sgn (det4 o (ta t) (tb t) (tc t)) else 0%Z) TT).
   Definition cover_degenerate (o p : V3) (TT : list tri) : bool :=
